@@ -25,10 +25,20 @@ PROPS = {
         "assumptions": ["signatures of generated remote entries are valid (C03 covers invalid ones)", "timestamps are below 2^62"],
         "modelled": "sync.rs Replica::{insert,delete_prefix,insert_remote_entry,insert_entry}, validate_entry; ranger.rs Store::put; store/fs.rs parents, remove_prefix_filtered, entry_put, get_exact; store/fs/bounds.rs",
     },
+    "C05": {
+        "n": {"quick": 120, "thorough": 1500},
+        "shard_size": 40,
+        "relation": "Check.C05.check: Store::get_many / get_exact answers = Model.Query.run_query over the model tables built by the same history = Model.Query.query_spec over the implementation's own full content",
+        "rule": "states built by C02-style histories (3-16 ops, 1-3 authors, boundary keys, markers, entries pruned by prefix deletion so that the by-key index holds stale rows); per state 50 random queries over kind x sort x author filter (none/known/unknown) x key filter (any/exact/prefix, incl. 0xFF-edged) x direction x include_empty x offset 0-3 x limit none/0-4, plus 12 point lookups; thorough: every 10th state gets the full product of query dimensions over 5 keys. evaluations = queries asked; non-trivial = the answer is neither empty nor everything; distinct = distinct (query, answer) pairs",
+        "spec_fail_text": "a query (or point lookup) on the real store returned something else than the declarative specification prescribes for the store's own content",
+        "assumptions": ["the specification oracle reads the store's content through get_many(all, include_empty); that query itself is checked against the model tables"],
+        "modelled": "store/fs/query.rs QueryIterator, store/util.rs IndexKind + LatestPerKeySelector, store/fs/bounds.rs RecordsBounds/ByKeyBounds, store/fs.rs get_exact, store/fs/ranges.rs",
+    },
 }
 
 NOT_APPLICABLE = {}
 
 LEVEL_TEXT = {
+    "C05": "Theorems: every range bound a query path scans (namespace, author+key-prefix, author+exact key, by-key prefix/exact/namespace) is exact for all 32-byte ids and all byte keys (closed under the global context); the iterator model and the declarative query_spec are both compared with the real get_many/get_exact on generated states (with stale index rows) and queries over the full product of query dimensions. The equality run_query = query_spec itself is checked by the correspondence runs, not yet by a theorem (partial).",
     "C02": "Theorems (Coq, closed under the global context) that put computes reduce: content after any offer sequence = the non-dominated offers, hence independent of order/duplication; exact removal set/count; rejected = no-op. The real Replica (memory and file store) is compared per operation and on the final content with the table-level model and with the abstract put/reduce on generated operation sequences; a disagreement is classified into property-violating input vs. broken correspondence.",
 }
